@@ -66,10 +66,11 @@ class Model:
 class Handle:
     """a group of shallow copies sharing one state point"""
 
-    def __init__(self, job, sp, path):
+    def __init__(self, job, sp, path, knows=True):
         self.jobs = [job]
         self.sp = copy.deepcopy(sp)
         self.path = path
+        self.knows = knows      # False: opened by id and the state point has not been loaded yet
 
 
 class Sim:
@@ -99,7 +100,7 @@ class Sim:
     def open(self, slot, path, sp, by_id=False):
         pr = self.pr[path]
         job = pr.open_job(id=refs.canon_id(sp)) if by_id else pr.open_job(sp)
-        self.handles[slot] = Handle(job, sp, path)
+        self.handles[slot] = Handle(job, sp, path, knows=not by_id or job._cached_statepoint is not None)
         return job
 
     def restart(self, path):
@@ -138,6 +139,30 @@ class Sim:
         job = h.jobs[-1] if op != "copy" else h.jobs[0]
         exp = None
         fs = self.fs
+        if not h.knows and key(h.sp) not in self.model.ws(h.path) and op not in ("remove", "clear", "update_cache"):
+            # a handle opened by id that never loaded its state point, and whose job is gone: it cannot know what to (re)create
+            got = None
+            try:
+                if op == "init":
+                    job.init()
+                elif op.startswith("doc_"):
+                    job.document
+                elif op == "put":
+                    job.init()
+                elif op == "reset":
+                    job.reset()
+                elif op == "copy":
+                    copy.copy(job)
+                else:
+                    job.statepoint()
+            except memfs.Crash:
+                raise
+            except Exception as ex:  # noqa
+                got = type(ex).__name__
+            ok = got in ("JobsCorruptedError", "KeyError")
+            if not ok:
+                self.errors.append((op, args, "handle without state point on a vanished job: expected JobsCorruptedError/KeyError, got", got))
+            return ok
         if op == "init":
             self._entry(h, create=True)
             act = lambda: job.init()
@@ -315,12 +340,43 @@ class Sim:
         self.errors += problems
         return not problems
 
+    def session_agree(self, path):
+        """the RUNNING session (its in-memory state point cache) answers queries like the model: every model job is found by its own state point"""
+        problems = []
+        pr = self.pr[path]
+        exp = self.model.expect(path)
+        try:
+            ids = sorted(j.id for j in pr.find_jobs())
+            if ids != sorted(exp):
+                problems.append(("session iteration", ids, sorted(exp)))
+            for i, e in exp.items():
+                flt = {k: v for k, v in e["sp"].items() if not isinstance(v, (dict, list))}
+                if flt:
+                    got = sorted(j.id for j in pr.find_jobs(flt))
+                    want = sorted(j for j, ee in exp.items() if all(ee["sp"].get(k, "<missing>") == v and type(ee["sp"].get(k)) is type(v) or ee["sp"].get(k, "<missing>") == v for k, v in flt.items()))
+                    if i not in got:
+                        problems.append(("session find_jobs misses a job", i, flt, got))
+                j = pr.open_job(id=i)
+                if not refs.same_json(j.statepoint(), e["sp"]) or not refs.same_json(dict(j.cached_statepoint), e["sp"]):
+                    problems.append(("session open_job(id) state point", i, j.statepoint()))
+        except Exception as ex:  # noqa
+            problems.append(("session query raised", type(ex).__name__, str(ex)[:80]))
+        self.errors += problems
+        return not problems
+
     def handles_follow(self, slot):
         """every live shallow copy of the handle describes the handle's current state point"""
         h = self.handles[slot]
         want_id = refs.canon_id(h.sp)
         problems = []
+        exists = key(h.sp) in self.model.ws(h.path)
         for n, j in enumerate(h.jobs):
+            if not exists and not h.knows:
+                # a handle opened by id whose job has meanwhile disappeared cannot know its state point: only the id is checked
+                if j.id != want_id:
+                    problems.append(("handle.id", n, j.id, want_id))
+                continue
+            h.knows = True
             if j.id != want_id:
                 problems.append(("handle.id", n, j.id, want_id))
             if j.path != f"{h.path}/workspace/{want_id}":
